@@ -374,6 +374,9 @@ add("GreedySamplingX_manhattan", P.GreedySamplingX,
 add("GreedySamplingTarget_nGSx3", P.GreedySamplingTarget,
     lambda s, ml=NAN: P.GreedySamplingTarget(n_GSx_samples=3, y_metric="manhattan", missing_label=ml, random_state=s),
     lambda c: dict(reg=reg_tree(c.get("ml", NAN))), kind="reg", arbitrary_index_ok=True, model_arg="reg")
+add("GreedySamplingTarget_nGSx0", P.GreedySamplingTarget,
+    lambda s, ml=NAN: P.GreedySamplingTarget(n_GSx_samples=0, method="GSy" if s % 2 else "GSi", missing_label=ml, random_state=s),
+    lambda c: dict(reg=reg_nic(c.get("ml", NAN))), kind="reg", arbitrary_index_ok=True, model_arg="reg")
 add("EpistemicUS_logreg", P.EpistemicUncertaintySampling,
     lambda s, ml=NAN: P.EpistemicUncertaintySampling(missing_label=ml, random_state=s),
     lambda c: dict(clf=clf_lr(c["classes"][:2], c.get("ml", NAN))), arbitrary_index_ok=True, binary=True, model_arg="clf", nmax=14,
